@@ -114,18 +114,17 @@ PInit == /\ src = None /\ arc = None /\ dka = None /\ cur = None
          /\ st = "idle" /\ bad = ""
 
 \* a new source store was scanned: forget everything that referred to the previous one
-PSrc(S) == /\ st \in {"idle", "exported"}
-           /\ src' = S /\ arc' = None /\ cur' = None /\ st' = "src" /\ bad' = ""
-           /\ UNCHANGED dka
+PSrc(S) == /\ st \in {"idle", "ready", "dkready"}
+           /\ src' = S /\ arc' = None /\ cur' = None /\ dka' = None /\ st' = "src" /\ bad' = ""
 PTar(T) == /\ st = "src"
            /\ arc' = T /\ st' = "tar" /\ bad' = ""
            /\ UNCHANGED <<src, dka, cur>>
 \* ImageExport returned: O1 (skip = the line was neutralised after being reported)
 PExport(ok, skip) == /\ st = "tar"
-                     /\ st' = "exported"
+                     /\ st' = "ready"
                      /\ bad' = IF skip THEN "" ELSE IF ~ok THEN "O1-failed: export failed" ELSE O1(src, arc)
                      /\ UNCHANGED <<src, arc, dka, cur>>
-PImpBegin(id, want) == /\ st \in {"exported"}
+PImpBegin(id, want) == /\ st = "ready"
                        /\ cur' = [id |-> id, want |-> want, ok |-> FALSE]
                        /\ st' = "importing" /\ bad' = ""
                        /\ UNCHANGED <<src, arc, dka>>
@@ -135,14 +134,13 @@ PImpResult(id, ok) == /\ st = "importing" /\ cur.id = id
                       /\ UNCHANGED <<src, arc, dka>>
 PImpTarget(id, objs, top, skip) ==
   /\ st = "imported" /\ cur.id = id
-  /\ st' = "exported" /\ cur' = None
+  /\ st' = "ready" /\ cur' = None
   /\ bad' = IF skip THEN "" ELSE O2(src, [ok |-> cur.ok, objs |-> objs, top |-> top, want |-> cur.want])
   /\ UNCHANGED <<src, arc, dka>>
 
-PDkArchive(K) == /\ st \in {"idle", "exported"}
-                 /\ dka' = K /\ st' = "exported" /\ bad' = ""
-                 /\ UNCHANGED <<src, arc, cur>>
-PDkBegin(id) == /\ st = "exported" /\ dka # None
+PDkArchive(K) == /\ st \in {"idle", "ready", "dkready"}
+                 /\ dka' = K /\ src' = None /\ arc' = None /\ cur' = None /\ st' = "dkready" /\ bad' = ""
+PDkBegin(id) == /\ st = "dkready"
                 /\ cur' = [id |-> id, want |-> "", ok |-> FALSE]
                 /\ st' = "dkimporting" /\ bad' = ""
                 /\ UNCHANGED <<src, arc, dka>>
@@ -152,7 +150,7 @@ PDkResult(id, ok) == /\ st = "dkimporting" /\ cur.id = id
                      /\ UNCHANGED <<src, arc, dka>>
 PDkTarget(id, found, cfg, layers, skip) ==
   /\ st = "dkimported" /\ cur.id = id
-  /\ st' = "exported" /\ cur' = None
+  /\ st' = "dkready" /\ cur' = None
   /\ bad' = IF skip THEN "" ELSE O3(dka, [ok |-> cur.ok, found |-> found, cfg |-> cfg, layers |-> layers])
   /\ UNCHANGED <<src, arc, dka>>
 \* a neutralised or informational line
